@@ -250,7 +250,8 @@ CLAIMS = {
         text=("Kernel-checked theorems about the SRP decision logic for all counts, limits and switches: reported iff methods > max_methods "
               "or lines > max_loc or (keyword checking on and keyword in name); exactly on a limit is not reported and one above is; the "
               "message lists exactly the exceeded criteria with the counts, each once; more permissive thresholds never add a report; only "
-              "countable members change the method count; blank/comment lines never change the measured size in any language (repaired: "
+              "countable members change the method count (a property's setter / deleter counts, only the getter is exempt), member order and the "
+              "position of blank / comment lines are irrelevant, a growing class is never un-reported; blank/comment lines never change the measured size in any language (repaired: "
               "TypeScript used to count the raw span); language overrides apply only to their language. The counting functions and from_dict are executed by the "
               "Lean driver on generated class descriptions and compared with `thailint srp` (line, full message, exit code)."),
         note=("What counts as a public method per language is the implementation's notion, mirrored in `countable`; parsers trusted; "
